@@ -148,6 +148,8 @@ func runC14(w *core.World, r *core.Report) {
 	r.Rule("R4", "the assembler's integer encoder never right-trims the big-endian buffer")
 	r.Rule("R5", "Parse* functions hand out the primitive decoders' values unmodified (no constant or arithmetic on a success path)")
 	r.Rule("R6", "disassembler lines are built with constant format strings whose verb count equals the argument count")
+	r.Rule("R12", "the assembler encodes each source line in a buffer allocated for it (C16 R6): encodings of concurrent or nested Parse calls cannot interleave")
+	r.Rule("R11", "decoded strings are copies of the instruction bytes: the codec packages do not import unsafe")
 	r.Rule("R10", "the disassembler's listing is written into a buffer allocated for the call")
 	r.Rule("R9", "vm.NewLine writes the width byte of the integer operand behind a nil test, not a length test")
 	r.Rule("R8", "the integer decoder decodes every accepted operand length from the operand bytes (the length byte reaches the result only behind length==0)")
@@ -387,6 +389,8 @@ func runC14(w *core.World, r *core.Report) {
 	// ---- R9 / R10 -----------------------------------------------------------------------------
 	checkNewLineByteArgs(w, r, "R9")
 	checkDisasmFreshBuffer(w, r, "R10")
+	checkCodecNoUnsafe(w, r, "R11")
+	checkFreshLineBuffer(w, r, "R12")
 
 	// ---- R4 -----------------------------------------------------------------------------------
 	checkNoRightTrim(w, r, "R4")
